@@ -1,6 +1,6 @@
 module verif
 
-go 1.20
+go 1.21
 
 require (
 	github.com/jackc/pgx/v5 v5.6.0
